@@ -142,7 +142,7 @@ def sp_strategy():
     from hypothesis import strategies as st
     return st.fixed_dictionaries({'fault': st.sampled_from(FAULTS), 'opts': st.integers(0, 7), 'unsol': st.booleans(), 'enc_key': st.sampled_from([2, 2, 3]),
                                   'block': st.sampled_from(['aes128', 'aes256', '3des']), 'transport': st.sampled_from(['oaep', 'rsa15']), 'alg': st.sampled_from(build.HASHES),
-                                  'sign_r': st.booleans(), 'xsw': st.tuples(st.integers(0, 6), st.integers(0, 3), st.integers(0, 3)).map(list), 'conv': st.booleans(),
+                                  'sign_r': st.booleans(), 'xsw': st.tuples(st.integers(0, 6), st.integers(0, 4), st.integers(0, 3)).map(list), 'conv': st.booleans(),
                                   # None: the assertion is encrypted for a key pair of the SP's configuration; otherwise for pool key 4, whose private key the application hands
                                   # over per request (outstanding_certs) as the n-th of the listed keys
                                   'per_request': st.sampled_from([None, None, None, [4], [4, 5], [5, 4], [5, 4, 6], [5, 6, 4]]),
